@@ -1093,6 +1093,11 @@ fn entry_act<K: KeyT, V: ValT>(
                     }
                     Entry::Vacant(v2) => {
                         chk!(c, v2.key().id() == id, "replace_entry_with({id}): the returned vacant entry is for another key");
+                        // ... and it is a usable vacant entry: insert through it
+                        let kt = v2.key().tok();
+                        let r = v2.insert(V::make(t2 ^ 0x0400_0000));
+                        chk!(c, r.tok() == t2 ^ 0x0400_0000, "replace_entry_with({id}): inserting through the returned vacant entry returned another value");
+                        model.push((id, kt, t2 ^ 0x0400_0000));
                     }
                 }
             }
@@ -1116,11 +1121,21 @@ fn entry_act<K: KeyT, V: ValT>(
                     model.swap_remove(p);
                 }
             }
-            if let Entry::Occupied(mut o2) = r {
-                chk!(c, o2.key().id() == id && o2.get().tok() == t2, "and_replace_entry_with({id}): the returned entry shows ({}, {}), expected the new value {t2}", o2.key().id(), o2.get().tok());
-                o2.get_mut().set_tok(t2 ^ 0x0800_0000);
-                if let Some(p) = p {
-                    model[p].2 = t2 ^ 0x0800_0000;
+            match r {
+                Entry::Occupied(mut o2) => {
+                    chk!(c, o2.key().id() == id && o2.get().tok() == t2, "and_replace_entry_with({id}): the returned entry shows ({}, {}), expected the new value {t2}", o2.key().id(), o2.get().tok());
+                    o2.get_mut().set_tok(t2 ^ 0x0800_0000);
+                    if let Some(p) = p {
+                        model[p].2 = t2 ^ 0x0800_0000;
+                    }
+                }
+                Entry::Vacant(v2) => {
+                    // the vacant entry handed back (after a removal, or for an absent key) is usable: insert through it
+                    chk!(c, v2.key().id() == id, "and_replace_entry_with({id}): the returned vacant entry is for another key");
+                    let kt = v2.key().tok();
+                    let r2 = v2.insert(V::make(t2 ^ 0x0400_0000));
+                    chk!(c, r2.tok() == t2 ^ 0x0400_0000, "and_replace_entry_with({id}): inserting through the returned vacant entry returned another value");
+                    model.push((id, kt, t2 ^ 0x0400_0000));
                 }
             }
         }
